@@ -39,6 +39,8 @@ JudgeRepair(c) ==
        \o (IF edited /\ c.det = Len(es) /\ c.w \notin ToSet(c.cands) THEN <<"original-not-recovered">> ELSE <<>>)
        \o (IF edited /\ Len(es) = 1 /\ ((c.det >= 1) # ~walk) THEN <<"detection-iff-not-walk">> ELSE <<>>)
        \o (IF c.w # <<>> /\ ~edited THEN <<"note:edit-set-not-admissible">> ELSE <<>>)
+       \o (IF "tl" \in DOMAIN c /\ c.tl # <<>> /\ c.tl # ScanLog(live, N, k, c.dna, ScanInit(c.start, n), <<>>)
+           THEN <<"conformance:scan-ticks">> ELSE <<>>)
        \o (IF <<c.cands, c.det>> # <<spec.cands, spec.det>> THEN <<"conformance:result-differs-from-machine">>
            ELSE IF <<c.flag, c.count, c.visited>> # <<spec.flag, spec.count, spec.visited>> THEN <<"conformance:statistics-differ">> ELSE <<>>)
 Judge(c) == IF "kind" \in DOMAIN c /\ c.kind = "pm" THEN JudgePm(c) ELSE JudgeRepair(c)
